@@ -13,7 +13,7 @@
 (*             | [t |-> "abs"]                                             *)
 (*  partial    [v, M, m, p, pre, bld, nohy]   pre/bld: lists of raw bytes  *)
 (*  comparator [op |-> "" = < <= > >= ~ ~> ^, sp |-> blanks, pa |-> partial]*)
-(*             | [op |-> "hyphen", lo |-> partial, hi |-> partial]         *)
+(*             | [op |-> "hyphen", lo |-> partial, hi |-> partial, ls, rs] *)
 (*             | [op |-> "garbage", txt |-> bytes]                         *)
 (*  alternative [cs |-> comparators, seps |-> blanks between them]         *)
 (*  range      [alts |-> alternatives, ors |-> [l, r] blanks around `||`]  *)
@@ -27,7 +27,7 @@ CAbs == [t |-> "abs"]
 IsNumC(c) == c.t = "n"
 PartialOf(M, m, p, pre, bld) == [v |-> FALSE, M |-> M, m |-> m, p |-> p, pre |-> pre, bld |-> bld, nohy |-> FALSE]
 CmpOf(op, pa) == [op |-> op, sp |-> <<>>, pa |-> pa]
-HyphenOf(lo, hi) == [op |-> "hyphen", lo |-> lo, hi |-> hi]
+HyphenOf(lo, hi) == [op |-> "hyphen", lo |-> lo, hi |-> hi, ls |-> <<32>>, rs |-> <<32>>]   \* ls, rs: the blanks around the dash
 GarbageOf(txt) == [op |-> "garbage", txt |-> txt]
 AltOf(cs) == [cs |-> cs, seps |-> [i \in 1..(Len(cs) - 1) |-> <<32>>]]
 RangeOf(alts) == [alts |-> alts, ors |-> [i \in 1..(Len(alts) - 1) |-> [l |-> <<>>, r |-> <<>>]]]
@@ -46,7 +46,7 @@ OpBytes(op) == CASE op = "" -> <<>> [] op = "=" -> <<61>> [] op = "<" -> <<60>> 
                  [] op = ">" -> <<62>> [] op = ">=" -> <<62, 61>> [] op = "~" -> <<126>> [] op = "~>" -> <<126, 62>>
                  [] op = "^" -> <<94>>
 RenderCmp(c) == CASE c.op = "garbage" -> c.txt
-                  [] c.op = "hyphen" -> RenderPartial(c.lo) \o <<32, 45, 32>> \o RenderPartial(c.hi)
+                  [] c.op = "hyphen" -> RenderPartial(c.lo) \o c.ls \o <<45>> \o c.rs \o RenderPartial(c.hi)
                   [] OTHER -> OpBytes(c.op) \o c.sp \o RenderPartial(c.pa)
 RECURSIVE RenderAltFrom(_, _)
 RenderAltFrom(a, i) == IF i > Len(a.cs) THEN <<>>
